@@ -168,7 +168,28 @@ func runC14(c *Ctx) {
 		}
 	}
 	c.R.Check(nHandle >= 3, r3, "transport/serialize", "handle creations enumerated", "-", fmt.Sprintf("found %d", nHandle))
-	c.R.Floor(r3, 4)
+	// the decoders run with the reviewed options only: anything else set on a handle (RawToString, MaxDepth, …)
+	// changes what the same bytes decode to, in one format and not in the others
+	reviewedOpt := map[string]bool{"&WriteExt": true, "&BasicHandle.&DecodeOptions.&MapType": true}
+	nOpt := 0
+	for _, fn := range c.P.FuncsIn("transport/serialize") {
+		for _, in := range ir.Instrs(fn) {
+			st, ok := in.(*ssa.Store)
+			if !ok {
+				continue
+			}
+			d := ir.Desc(st.Addr)
+			m := re(`^\*g:transport/serialize\.(jh|mh|ch)\.(.+)$`).FindStringSubmatch(d)
+			if m == nil {
+				continue
+			}
+			nOpt++
+			c.R.Check(reviewedOpt[m[2]], r3, ir.ShortName(fn), "codec option "+m[1]+"."+strings.ReplaceAll(m[2], "&", "")+" is a reviewed one", c.pos(in),
+				"option "+strings.ReplaceAll(m[2], "&", "")+" is set on the "+m[1]+" handle: not one of the reviewed decoder options (MapType, WriteExt); it changes what this format decodes, unlike its siblings")
+		}
+	}
+	c.R.Check(nOpt >= 4, r3, "transport/serialize", "codec option stores enumerated", "-", fmt.Sprintf("found %d", nOpt))
+	c.R.Floor(r3, 9)
 
 	const r4 = "C14.R4 listToMsg and the Deserialize siblings are bounded and checked"
 	l2m := "transport/serialize.listToMsg"
@@ -183,6 +204,7 @@ func runC14(c *Ctx) {
 		c.Guard(r4, f, "message built", `^call:transport/serialize\.listToMsg\(`, 1,
 			clause("decoding succeeded", T(`^\(call:invoke:codec\.decoderI\.Decode\[.*\]\(&local:v\) == nil\)$`), T(`^\(call:.*Decode.* == nil\)$`)),
 			clause("list not empty", F(`^\(call:builtin:len\(local:v\) == 0\)$`)))
+		c.HasNot(r4, f, "type code taken from an integer only (no lenient numeric conversion)", `^call:wamp\.As[A-Z]`)
 		c.Has(r4, f, "type code converted, list passed on", `^call:transport/serialize\.listToMsg\(conv:(int|wamp\.MessageType)\(.*\), local:v\)$`, 1)
 		if fn := c.P.Func(f); fn != nil {
 			for _, in := range ir.Instrs(fn) {
